@@ -9,6 +9,7 @@ import (
 	"crypto/x509"
 	"encoding/json"
 	"encoding/pem"
+	"errors"
 	"fmt"
 	"net"
 	"os"
@@ -280,7 +281,7 @@ func (d *Daemon) Start() error {
 		return fmt.Errorf("VERIF_DIRK is not set")
 	}
 	var lastErr error
-	for attempt := 0; attempt < 3; attempt++ {
+	for attempt := 0; attempt < 5; attempt++ {
 		addr, err := freePort()
 		if err != nil {
 			return err
@@ -340,7 +341,7 @@ func (d *Daemon) Start() error {
 		exited := make(chan error, 1)
 		go func() { exited <- cmd.Wait() }()
 		deadline := time.Now().Add(20 * time.Second)
-		up := false
+		up, foreign := false, false
 		for time.Now().Before(deadline) {
 			select {
 			case err := <-exited:
@@ -353,11 +354,47 @@ func (d *Daemon) Start() error {
 			c, err := net.DialTimeout("tcp", addr, 200*time.Millisecond)
 			if err == nil {
 				c.Close()
-				up = true
+				// somebody listens: make sure it is this daemon (another test process may have taken the
+				// port between our probe and the daemon's bind) by checking the server's certificate
+				pool := x509.NewCertPool()
+				pool.AppendCertsFromPEM(d.f.ca.CertPEM)
+				pool.AppendCertsFromPEM(d.f.server.CertPEM)
+				tc, terr := tls.DialWithDialer(&net.Dialer{Timeout: time.Second}, "tcp", addr, &tls.Config{RootCAs: pool, ServerName: name, MinVersion: tls.VersionTLS13})
+				if terr == nil {
+					tc.Close()
+					time.Sleep(30 * time.Millisecond)
+					select {
+					case err := <-exited:
+						foreign = true
+						lastErr = fmt.Errorf("dirk exited during start-up (port taken by another process?): %v: %s", err, d.Logs())
+					default:
+						up = true
+					}
 
-				break
+					break
+				}
+				var uae x509.UnknownAuthorityError
+				var cve *tls.CertificateVerificationError
+				if errors.As(terr, &uae) || errors.As(terr, &cve) {
+					foreign = true
+					lastErr = fmt.Errorf("port %s is served by another process: %v", addr, terr)
+
+					break
+				}
 			}
 			time.Sleep(15 * time.Millisecond)
+		}
+		if foreign {
+			_ = cmd.Process.Kill()
+			select {
+			case <-exited:
+			case <-time.After(5 * time.Second):
+			}
+			if d.cfg.Cluster {
+				return ErrPortTaken
+			}
+
+			continue
 		}
 		if up {
 			d.cmd, d.exited = cmd, exited
@@ -373,6 +410,9 @@ func (d *Daemon) Start() error {
 
 	return lastErr
 }
+
+// ErrPortTaken reports that a cluster member's fixed port was taken by another process; the caller picks new ports.
+var ErrPortTaken = errors.New("port taken by another process")
 
 // Logs returns the tail of the daemon's output.
 func (d *Daemon) Logs() string {
